@@ -92,7 +92,8 @@ TARGET_FUNCS = {"__enter__", "__exit__", "inject", "convert_field_name", "conver
 
 
 class Baton:
-    def __init__(self, n, rng=None, mean_gap=50, p_target=0.0, replay=None, max_steps=3_000_000, p_first=0.0):
+    def __init__(self, n, rng=None, mean_gap=50, p_target=0.0, replay=None, max_steps=3_000_000, p_first=0.0,
+                 extra_prefixes=()):
         self.n = n
         self.rng = rng
         self.mean_gap = max(1, mean_gap)
@@ -112,6 +113,9 @@ class Baton:
         self.handoffs = {}
         self.first = None
         self.prefix = loader.pkg_dir() + "/"
+        # further directories whose frames are pre-emption points too (libraries holding state that the package shares
+        # between threads, e.g. one module-level YAML parser instance)
+        self.extra_prefixes = tuple(extra_prefixes)
         self.opcode_file = self.prefix + "dynamic_typing/models_meta.py"
         self.sems = [_RawSem() for _ in range(n)]
         self.idents = {}  # thread ident -> index
@@ -206,6 +210,8 @@ class Baton:
             code = frame.f_code
             fn = code.co_filename
             if not fn.startswith(prefix):
+                if self.extra_prefixes and fn.startswith(self.extra_prefixes):
+                    return local
                 return None
             name = code.co_name
             if name == "generate_code":
